@@ -10,7 +10,6 @@ import (
 	"perun.network/go-perun/wallet"
 
 	"verif/internal/canon"
-	"verif/internal/gen"
 )
 
 // Observer sees every applicable step of one execution.
@@ -48,7 +47,7 @@ func (e *Exec) Fork() *Exec {
 		panic("mexplore: only plain machines can be forked")
 	}
 	src := &source{idx: p.Idx(), params: e.W.Params, snap: Snap(p)}
-	m, err := channel.RestoreStateMachine(gen.AccMap(e.W.Parties[e.W.Idx].Acc), src)
+	m, err := channel.RestoreStateMachine(e.W.Parties[e.W.Idx].AccMap(), src)
 	if err != nil {
 		panic(fmt.Sprintf("mexplore: fork: %v", err))
 	}
@@ -283,7 +282,7 @@ func (v *verifier) ok(st *channel.State, i int, sig wallet.Sig) bool {
 	res := false
 	func() {
 		defer func() { _ = recover() }()
-		ok, err := channel.Verify(v.w.Parties[i].Addr[gen.B], st, sig)
+		ok, err := channel.Verify(v.w.Parties[i].Any(), st, sig)
 		res = ok && err == nil
 	}()
 	v.mu.Lock()
